@@ -426,6 +426,13 @@ bool ManifestParser::ParseFileInclude(bool new_scope, string* err) {
     return false;
   string path = eval.Evaluate(env_);
 
+  // A file that (indirectly) includes itself would recurse until the stack
+  // overflows; no real build nests includes anywhere near this deep.
+  const int kMaxIncludeDepth = 100;
+  if (include_depth_ >= kMaxIncludeDepth)
+    return lexer_.Error("include nesting too deep (does '" + path +
+                        "' include itself?)", err);
+
   if (subparser_ == nullptr) {
     subparser_.reset(new ManifestParser(state_, file_reader_, options_));
   }
@@ -434,6 +441,7 @@ bool ManifestParser::ParseFileInclude(bool new_scope, string* err) {
   } else {
     subparser_->env_ = env_;
   }
+  subparser_->include_depth_ = include_depth_ + 1;
 
   if (!subparser_->Load(path, err, &lexer_))
     return false;
